@@ -508,3 +508,8 @@ _run_c09 = run
 def run(ctx, R):
     _run_c09(ctx, R)
     r97(ctx, R)
+    # R9.8: the loop / self-parent guards compare request text with stored
+    # uuids in Python; they mean something only if what is bound is what is
+    # stored
+    n8 = C.plain_column_types(ctx, R, 'R9.8')
+    R.count('R9.8', n8, 40)
